@@ -202,6 +202,68 @@ def tlc(specdir, module, cfg, *, workers="auto", timeout=600, simulate=None, dep
             shutil.rmtree(wd, ignore_errors=True)
 
 
+def run_test_driver(binp, scenarios, wd, timeout=1200, env_extra=None, name="drv"):
+    """Run a harness test binary (TestDrive) over scenarios with crash isolation: the binary prints BEGIN/END <id>
+    markers on stderr; if it dies inside a scenario that scenario's outcome is 'crash' and the run continues after it.
+    Returns (traces: {id: trace}, crashed: {id: stderr-tail})."""
+    inp = os.path.join(wd, name + "-in.ndjson")
+    outp = os.path.join(wd, name + "-out.ndjson")
+    write_ndjson(inp, scenarios)
+    if os.path.exists(outp):
+        os.remove(outp)
+    crashed = {}
+    skip = []
+    t_end = time.time() + timeout
+    for attempt in range(200):
+        env = dict(os.environ)
+        env.update({"VERIF_IN": inp, "VERIF_OUT": outp, "VERIF_SKIP": ",".join(skip)})
+        env.update(env_extra or {})
+        left = t_end - time.time()
+        if left <= 0:
+            raise Infra("driver %s: time budget exhausted" % name)
+        try:
+            r = subprocess.run([binp, "-test.run", "TestDrive", "-test.timeout", "%ds" % int(left)], env=env, capture_output=True, text=True, timeout=left + 30)
+        except subprocess.TimeoutExpired:
+            raise Infra("driver %s timed out" % name)
+        done = set()
+        open_id = None
+        for l in r.stderr.splitlines():
+            if l.startswith("BEGIN "):
+                open_id = l.split()[1]
+            elif l.startswith("END "):
+                done.add(l.split()[1]); open_id = None
+        if r.returncode == 0 and open_id is None:
+            break
+        if open_id is None:
+            raise Infra("driver %s failed outside a scenario (rc=%d):\n%s" % (name, r.returncode, r.stderr[-3000:]))
+        crashed[open_id] = r.stderr[-1500:]
+        skip.extend(sorted(done))
+        skip.append(open_id)
+    traces = {}
+    if os.path.exists(outp):
+        for t in read_ndjson(outp):
+            traces[str(t["id"])] = t
+    # a crash is an observation only if it is reproducible: re-run each crashed scenario alone, twice
+    if crashed and name != "retry":
+        by_id = {str(s_["id"]): s_ for s_ in scenarios}
+        for sid in list(crashed):
+            again = 0
+            for k in range(2):
+                tr2, cr2 = run_test_driver(binp, [by_id[sid]], wd, timeout=max(60, t_end - time.time()), env_extra=env_extra, name="retry")
+                if cr2:
+                    again += 1
+                else:
+                    traces[sid] = tr2[sid]
+            if again < 2:
+                log("scenario %s crashed once but not on re-run: treated as non-reproducible (not a verdict)" % sid)
+                FLAKY_CRASHES.append(sid)
+                del crashed[sid]
+    return traces, crashed
+
+
+FLAKY_CRASHES = []
+
+
 def known_findings(prop):
     p = os.path.join(VERIF, "KNOWN_FINDINGS.json")
     if not os.path.exists(p):
